@@ -39,9 +39,12 @@ fn parse_modified_hdrs(
 ) -> Result<(bool, bool), &'static str> {
     let precondition_failed = if !etag::any_match(etag, req_hdrs)? {
         true
-    } else if let (Some(ref m), Some(since)) =
-        (last_modified, req_hdrs.get(header::IF_UNMODIFIED_SINCE))
-    {
+    } else if let (None, Some(ref m), Some(since)) = (
+        // RFC 7232 section 3.4: If-Unmodified-Since is ignored when If-Match is present.
+        req_hdrs.get(header::IF_MATCH),
+        last_modified,
+        req_hdrs.get(header::IF_UNMODIFIED_SINCE),
+    ) {
         const ERR: &str = "Unparseable If-Unmodified-Since";
         truncate_to_secs(*m) > parse_http_date(since.to_str().map_err(|_| ERR)?).map_err(|_| ERR)?
     } else {
